@@ -61,6 +61,30 @@ CHECKS["C11"] = ("model_checking",
     "exactly the remaining variables as dimensions and agree with Slice(R, fixed) on every completion through keyword, positional and dict calls; the batch is "
     "run in one sub-process per PYTHONHASHSEED (3 quick / 6 thorough).",
     "Trusted: TLC's evaluation of Relations.tla/Gen_C11.tla, the construction of the real relations in vlib/props/C11_worker.py.", "DESIGN.md section 4 C11")
+
+_NC = "Trusted: TLC's evaluation of the named specification modules and the case -> object construction in the property's vlib/props module. Inputs are bounded as stated; no schedule is involved."
+CHECKS["C13"] = ("model_checking",
+    "TLC-enumerated DCOPs, assignments and calls with results computed from Dcop.tla (SolutionCost, AssignmentCost), executed on the real functions",
+    "TLC (Gen_C13 over Gen_Dcop/Dcop.tla) enumerates DCOPs with hard (infinity-valued, also above infinity) and soft terms, own-value costs, at most one external "
+    "variable, every subset of assigned variables and assignments, with the expected (hard count, soft sum) pair or ValueError, and assignment_cost over every "
+    "subset of constraints with/without variable costs; each case is executed on DCOP.solution_cost / relations.assignment_cost (exhaustive tables for the "
+    "1-2 variable shapes, TLC-drawn tables for n-ary / parallel / multi-component shapes).", _NC, "DESIGN.md section 4 C13")
+CHECKS["C28"] = ("model_checking",
+    "TLC-enumerated user inputs over the real algo_params tables with results computed from Params.tla, executed through three entry points",
+    "The real parameter tables of all shipped algorithms (read from the modules, passed to TLC as a constant) plus a synthetic table; TLC enumerates every subset "
+    "of parameters x value kinds (typed, numeric strings, invalid strings, out-of-list, ill-typed) x undeclared parameter and computes Params!Prepare; each case "
+    "is run through prepare_algo_params, AlgorithmDef.build_with_default_param and build_algo_def ('name:value' strings) with type-exact comparison.",
+    _NC, "DESIGN.md section 4 C28")
+CHECKS["C29"] = ("model_checking",
+    "TLC-enumerated batch parameter definitions with their expansion as a set (Batch.tla), executed on the real functions per PYTHONHASHSEED",
+    "TLC enumerates parameter definitions (1-3 quick / 1-4 thorough parameters; lists, scalars, nested dicts) with Batch!Combos and Batch!Tokens; the real "
+    "regularize_parameters + parameters_configuration must return that set without duplicates, identically on a second expansion and under 3-5 PYTHONHASHSEED "
+    "values (one sub-process each); build_option_for_parameters of each combination must split into exactly the expected tokens.", _NC, "DESIGN.md section 4 C29")
+CHECKS["C31"] = ("model_checking",
+    "TLC-enumerated agent definitions and create_agents calls with the observations defined by AgentDefs.tla, executed on the real classes",
+    "TLC enumerates every argument combination (default route, partial route tables, default hosting cost, partial hosting tables, extra attributes) for "
+    "individually built agents and for create_agents over list / range (zero padded) / tuple-of-lists indexes, with AgentDefs!Obs; the real objects are "
+    "observed through route(), hosting_cost(), the default accessors, getattr and extra_attr().", _NC, "DESIGN.md section 4 C31")
 NOT_YET = "check not built yet in this snapshot (work in progress, see DESIGN.md section 9)"
 
 fix_commits = subprocess.run(["git", "-C", "/repo", "log", "--format=%h %s", "aeaae91..HEAD"], capture_output=True, text=True).stdout.splitlines()
